@@ -64,6 +64,7 @@ func main() {
 	if r.Thorough() {
 		spinCap = 25
 	}
+	genCorpus(cl)
 	genNDP(cl, rng.Fork(), scale)
 	genHBH(cl, rng.Fork(), scale)
 	genMDNS(cl, rng.Fork(), scale)
@@ -124,4 +125,38 @@ func main() {
 		}
 	}
 	r.Stat("hangs", hangs)
+}
+
+// genCorpus adds the committed witnesses (corpus/C08/*.txt): case lines, or raw messages
+// ("mdnsmsg <hex>", "nbnsmsg <hex>") whose structured view is derived here.
+func genCorpus(cl *caseList) {
+	dir := os.Getenv("VERIF_CORPUS")
+	if dir == "" {
+		dir = "/verif/corpus/C08"
+	}
+	ents, _ := os.ReadDir(dir)
+	for _, e := range ents {
+		b, err := os.ReadFile(dir + "/" + e.Name())
+		if err != nil {
+			continue
+		}
+		for _, l := range strings.Split(string(b), "\n") {
+			f := strings.Fields(l)
+			if len(f) < 2 || strings.HasPrefix(f[0], "#") {
+				continue
+			}
+			switch f[0] {
+			case "mdnsmsg":
+				msg := lib.UnHex(f[1])
+				cl.add("corpus", "mdns", append([]string{f[1]}, viewOf(msg).tokens(false)...)...)
+			case "nbnsmsg":
+				msg := lib.UnHex(f[1])
+				cl.add("corpus", "nbns", append([]string{f[1]}, viewOf(msg).tokens(true)...)...)
+			default:
+				if impls[f[0]] != nil {
+					cl.add("corpus", f[0], f[1:]...)
+				}
+			}
+		}
+	}
 }
